@@ -90,6 +90,7 @@ type Ctx struct {
 	scopeMemo map[*ssa.Function]map[string]bool
 	expandDepth int
 	writesParserMemo map[*ssa.Function]bool
+	tokFlowMemo      map[*ssa.Function]*tokFlow
 	tableDone  bool
 	bceErr  error
 	subst   map[*ssa.Parameter]ssa.Value
